@@ -147,6 +147,9 @@ class FileProxy:
         return self._fh.close()
 
     def flush(self):
+        if self._inj.has("close"):      # the same failure at an explicit flush
+            self.__dict__["_buf"] = []
+            raise OSError(errno.ENOSPC, "injected: flush of buffered data")
         self._drain()
         return self._fh.flush()
 
@@ -785,7 +788,7 @@ def eval_problem(args):
     nobj = ref["nf"]
     return {"i": i, "error": None, "results": results, "nobj": nobj, "nw": ref["nw"],
             "incomplete": cases[0].get("incomplete") if cases else None,
-            "text": text, "render_req": "render " + wire_problem(ref) if ref["bytes"] is not None else None,
+            "text": text, "render_problem": wire_problem(ref) if ref["bytes"] is not None else None,
             "ref_bytes": ref["bytes"].hex() if ref["bytes"] is not None else None}
 
 
@@ -904,7 +907,7 @@ def run(ctx):
         # when the proof build broke, say which reflective condition of the generated list is false
         if ctx.broken_obligations:
             falses = {k: v["witness"] for k, v in diag.items()
-                      if not v["holds"] and k not in ("cleanup_total", "all_formats_precede_open")}
+                      if not v["holds"] and k not in ("cleanup_total", "all_formats_precede_open", "w_strips")}
             ctx.broken_obligations.append({"obligation": "reflective conditions of Gen/Writer.v (vm_compute)",
                                            "detail": {"false": falses, "wire": wire}})
     # ---- 2. corpus + generated problems through the workers
@@ -999,8 +1002,10 @@ def run(ctx):
     # ---- 3b. the complete file has MCNP's block structure: the bytes of a fault-free real write are the
     #          model's spec_render of the recorded lines (what C15_success promises about the model)
     if wire is not None or ok:
-        rr = [o for o in outs if not o["error"] and o.get("render_req")]
-        rans = vlib.model_ask("Write", [o["render_req"] for o in rr]) if rr else []
+        # (whether lines are right-stripped is read off the generated step list: C15 does not care)
+        strip = "1" if (not diag or diag.get("w_strips", {}).get("holds")) else "0"
+        rr = [o for o in outs if not o["error"] and o.get("render_problem")]
+        rans = vlib.model_ask("Write", [f"render {strip} " + o["render_problem"] for o in rr]) if rr else []
         for o, a in zip(rr, rans):
             ctx.cov["disagreements_checked"] += 1
             if a != o["ref_bytes"]:
@@ -1057,10 +1062,9 @@ def run(ctx):
         f"vm_compute cross-check of {nx} model requests",
     ]
     assumptions = [
-        "C15_atomic / C15_no_leftover_partial: the temporary's name is not taken before the call (f (tmp pid d) = Absent); "
+        "C15_atomic / C15_no_leftover: the temporary's name is not taken before the call (f (tmp pid d) = Absent); "
         "C15_guards / C15_success / C15_frame / C15_atomic_any_adversary: none",
-        "C15_no_leftover_partial assumes close, os.replace and os.remove themselves do not fail; "
-        "C15_no_leftover_refuted shows the assumption is needed on the current source (finding F-C15-temp-left-when-exit-fails)",
+        "C15_no_leftover assumes that os.remove of the temporary itself does not fail (nothing could clean up after that)",
         "complete problem = the bytes of a fault-free write of the same problem (which montepy reads back to the same "
         "numbers of cells, surfaces and data inputs)",
     ]
